@@ -185,6 +185,11 @@ def compare(ds, bid, model, x, opname):
     e = b.get_by_id(NEVER_ID)
     if e is not None:
         probs.append(("lookup-of-dead-id", f"get_by_id(never) = {S.ev_tuple(e)}"))
+    if FOREIGN_ID[0] is not None and FOREIGN_ID[0] not in after and FOREIGN_ID[0] not in model.ever and FOREIGN_ID[0] not in model.live:
+        # an id that is live in ANOTHER bucket is not an id of this one (seeded: lookup by primary key only)
+        e = b.get_by_id(FOREIGN_ID[0])
+        if e is not None:
+            probs.append(("lookup-of-foreign-id", f"get_by_id(id {FOREIGN_ID[0]} of another bucket) = {S.ev_tuple(e)}"))
     n = b.get_eventcount()
     if n != len(dump):
         probs.append(("count-mismatch", f"get_eventcount() = {n}, listing has {len(dump)}"))
